@@ -26,6 +26,15 @@ type monitor struct {
 	texts   []string            // text of every TextBox in tree order
 	topmost map[string][]bo.Box // "<id>" / "<id>::before" / "<id>::marker" -> boxes whose parent box belongs to another element/pseudo
 	nBoxes  int
+
+	// footnotes (css-gcpm-3 §2): ::footnote-call boxes met during the walk
+	calls     map[int]int     // footnote element id -> number of ::footnote-call boxes
+	fmarkers  map[int]int     // footnote element id -> number of ::footnote-marker boxes
+	pending   []bo.Box        // footnote boxes reached through a call, not walked yet
+	reached   map[bo.Box]bool // footnote boxes reached through a call
+	areas     []bo.Box        // the footnote areas formed and walked
+	inArea    bool
+	areaDepth int
 }
 
 func (m *monitor) fail(sig, format string, a ...any) {
@@ -33,7 +42,11 @@ func (m *monitor) fail(sig, format string, a ...any) {
 		return
 	}
 	msg := fmt.Sprintf(format, a...)
-	m.res.Fail(sig, fmt.Sprintf("%s\n  document: %s\n  box tree: %s", msg, m.in.HTML, dump(m.b.root)))
+	tree := dump(m.b.root)
+	for i, a := range m.areas {
+		tree += fmt.Sprintf("\n  footnote area %d: %s", i, dump(a))
+	}
+	m.res.Fail(sig, fmt.Sprintf("%s\n  document: %s\n  box tree: %s", msg, m.in.HTML, tree))
 }
 
 func (m *monitor) info(e *html.Node) *einfo {
@@ -67,6 +80,7 @@ func children(b bo.Box) []bo.Box { return b.Box().Children }
 func (m *monitor) run() {
 	root := m.b.root
 	m.topmost = map[string][]bo.Box{}
+	m.calls, m.fmarkers, m.reached = map[int]int{}, map[int]int{}, map[bo.Box]bool{}
 	if root == nil {
 		m.fail("no-root", "BuildFormattingStructure returned no root box")
 		return
@@ -76,6 +90,10 @@ func (m *monitor) run() {
 	}
 	m.topmost[ownerKey(root)] = append(m.topmost[ownerKey(root)], root)
 	m.walk(root, nil)
+	if m.res.Verdict == fw.Violation {
+		return
+	}
+	m.walkFootnotes()
 	if m.res.Verdict == fw.Violation {
 		return
 	}
@@ -129,11 +147,36 @@ func (m *monitor) walk(b bo.Box, p bo.Box) {
 			return
 		}
 	case "marker":
+	case "footnote-call":
+		if p != nil && ownerKey(p) == ownerKey(b) {
+			break // a piece (text box) of the call
+		}
+		if !m.checkCall(b, k, e) {
+			return
+		}
+	case "footnote-marker":
+		// css-gcpm-3 §2.6: only a footnote element has a ::footnote-marker
+		if !e.footnote {
+			m.fail("provenance-pseudo", "%s is generated but n%d is not a footnote element", desc(b), e.n.ID)
+			return
+		}
+		if p == nil || ownerKey(p) != ownerKey(b) {
+			m.fmarkers[e.n.ID]++
+			if k != kInline {
+				m.fail("footnote-marker-kind", "%s: the ::footnote-marker of n%d is not an inline box (UA sheet: display inline)", desc(b), e.n.ID)
+				return
+			}
+		}
 	default:
 		m.fail("provenance-pseudo", "%s: unexpected pseudo type %q", desc(b), f.PseudoType)
 		return
 	}
-	if e.replaced && k != kBlockRepl && k != kInlineRepl &&
+	if e.footnote && !m.inArea && f.PseudoType != "footnote-call" {
+		// the footnote element is taken out of the flow: none of its boxes stays in the main tree
+		m.fail("footnote-in-flow", "%s, a box of the footnote element n%d, stands in the main box tree", desc(b), e.n.ID)
+		return
+	}
+	if e.replaced && f.PseudoType != "footnote-call" && k != kBlockRepl && k != kInlineRepl &&
 		!(k == kBlock && p != nil && isGridKind(kindOf(p))) &&
 		!(k == kLine && p != nil && kindOf(p) == kBlock && p.Box().Element == f.Element) {
 		// (an inline-level grid item is wrapped in an anonymous block -- and its line box -- that
@@ -156,7 +199,11 @@ func (m *monitor) walk(b bo.Box, p bo.Box) {
 			m.fail("ancestry", "%s is a child of %s, whose element is not an ancestor of n%d", desc(b), desc(p), e.n.ID)
 			return
 		}
-		if ownerKey(b) != ownerKey(p) {
+		// (a box without pseudo type inside a pseudo-element box of the same element is generated
+		// content of that pseudo-element -- webrender builds the text of a ::footnote-marker from
+		// the footnote's own box --, never a principal box of the element)
+		inPseudo := f.PseudoType == "" && p.Box().PseudoType != "" && p.Box().Element == f.Element
+		if ownerKey(b) != ownerKey(p) && !inPseudo {
 			m.topmost[ownerKey(b)] = append(m.topmost[ownerKey(b)], b)
 		}
 	}
@@ -542,8 +589,31 @@ func (m *monitor) checkElements() {
 		if e.parent != nil {
 			pcd = e.parent.cd
 		}
-		m.checkOwner(key, e.cd, e.replaced, pcd, fmt.Sprintf("element n%d (specified display %s, float %q, position %q, computed display %s)", n.ID, specifiedDisplay(n), n.Float, n.Pos, e.cd))
+		what := fmt.Sprintf("element n%d (specified display %s, float %q, position %q, computed display %s)", n.ID, specifiedDisplay(n), n.Float, n.Pos, e.cd)
+		if e.footnote {
+			// its box is a child of the footnote area (a block container), whatever its DOM parent is
+			pcd = "block"
+			what = fmt.Sprintf("footnote element n%d (specified display %s, footnote-display %q, position %q, display in the footnote area %s)", n.ID, specifiedDisplay(n), n.FD, n.Pos, e.cd)
+			if c := m.calls[n.ID]; c != 1 {
+				m.fail("footnote-call-count", "%s has %d ::footnote-call boxes in the tree, expected exactly one", what, c)
+				return
+			}
+		}
+		m.checkOwner(key, e.cd, e.replaced, pcd, what)
 		if m.res.Verdict == fw.Violation {
+			return
+		}
+		if e.footnote {
+			// css-gcpm-3 §2.6; not judged on replaced elements and <img> (no generated content there)
+			if c := m.fmarkers[n.ID]; c != 1 && !e.replaced && n.Tag != "img" {
+				m.fail("footnote-marker-count", "%s has %d ::footnote-marker boxes, expected exactly one", what, c)
+				return
+			}
+			m.res.Count("footnote_elements_checked", 1)
+			m.res.Count("footnote_display_"+e.cd, 1)
+			m.res.Count("footnote_specified_"+strings.ReplaceAll(specifiedDisplay(n), " ", "_"), 1)
+		} else if c := m.calls[n.ID] + m.fmarkers[n.ID]; c != 0 {
+			m.fail("footnote-of-non-footnote", "%s is no footnote element but has %d ::footnote-call / ::footnote-marker boxes", what, c)
 			return
 		}
 		m.res.Count("elements_checked", 1)
@@ -567,7 +637,7 @@ func (m *monitor) checkElements() {
 		}
 		// markers: one per list item (element or pseudo-element), css-lists-3 §3
 		want := 0
-		if isListItem(e.cd) && !e.replaced && n.Tag != "img" {
+		if e.listItem && !e.replaced && n.Tag != "img" {
 			want++
 		}
 		for _, p := range []*Pseudo{n.Before, n.After} {
@@ -710,6 +780,9 @@ func (m *monitor) checkTokens() {
 	}
 	reorder := false
 	for _, e := range m.list {
+		if e.n.Float == "footnote" {
+			reorder = true // footnote content is moved to the footnote area
+		}
 		for _, d := range []string{specifiedDisplay(e.n), pd(e.n.Before), pd(e.n.After)} {
 			if d == "table-header-group" || d == "table-footer-group" || d == "table-caption" {
 				reorder = true
@@ -807,4 +880,122 @@ func (m *monitor) checkAnonymous(b bo.Box, k kind, kids []bo.Box) {
 func soleLine(b bo.Box) bool {
 	ks := children(b)
 	return len(ks) == 1 && kindOf(ks[0]) == kLine && !b.Box().IsTableWrapper && b.Box().PseudoType != "marker"
+}
+
+// checkCall: b is a ::footnote-call box (css-gcpm-3 §2.5), met in the main tree or in a footnote
+// area; e is the model's element of b.  The call links the footnote box (BoxFields.Footnote), which
+// must be the box of a rendered footnote element and be listed in the footnotes output of
+// BuildFormattingStructure (layout finds it there by identity).
+func (m *monitor) checkCall(b bo.Box, k kind, e *einfo) bool {
+	fb := b.Box().Footnote
+	if fb == nil {
+		m.fail("footnote-call-dangling", "%s links no footnote box", desc(b))
+		return false
+	}
+	fe := m.info(fb.Box().Element)
+	if fe == nil {
+		m.fail("provenance-unknown-element", "%s links the footnote box %s of an element that is not a rendered element of the document", desc(b), desc(fb))
+		return false
+	}
+	if !fe.shown {
+		sig := "provenance-none"
+		if strings.Contains(fe.why, "replaced") {
+			sig = "provenance-replaced-child"
+		} else if strings.Contains(fe.why, "17.2.1") {
+			sig = "provenance-column-child"
+		}
+		m.fail(sig, "%s and the footnote box %s are generated for element n%d (float %q, footnote-display %q), which must generate no box: %s\n  footnote box: %s", desc(b), desc(fb), fe.n.ID, fe.n.Float, fe.n.FD, fe.why, dump(fb))
+		return false
+	}
+	if !fe.footnote {
+		m.fail("footnote-of-non-footnote", "%s links %s, but n%d is not a footnote element (float %q, position %q)", desc(b), desc(fb), fe.n.ID, fe.n.Float, fe.n.Pos)
+		return false
+	}
+	// the call is a pseudo-element of the footnote element; webrender attaches it to the parent element
+	switch e {
+	case fe:
+	case fe.parent:
+		m.res.Count("footnote_calls_on_parent_element", 1)
+	default:
+		m.fail("ancestry", "%s is the call of footnote element n%d but belongs to n%d", desc(b), fe.n.ID, e.n.ID)
+		return false
+	}
+	if k != kInline {
+		m.fail("footnote-call-kind", "%s: the ::footnote-call of n%d is not an inline box (UA sheet: display inline)", desc(b), fe.n.ID)
+		return false
+	}
+	listed := false
+	for _, l := range m.b.foot {
+		if l == fb {
+			listed = true
+		}
+	}
+	if !listed {
+		m.fail("footnote-not-listed", "%s links the footnote box %s, which is not in the footnotes list returned by BuildFormattingStructure", desc(b), desc(fb))
+		return false
+	}
+	m.calls[fe.n.ID]++
+	m.res.Count("footnote_calls", 1)
+	if m.inArea {
+		m.res.Count("footnote_calls_nested", 1)
+	}
+	if !m.reached[fb] {
+		m.reached[fb] = true
+		m.pending = append(m.pending, fb)
+	}
+	return true
+}
+
+// walkFootnotes forms the footnote area the way layout does (layoutContext.updateFootnoteArea:
+// CreateAnonymousBox over a deep copy of a block box whose children are the footnote boxes, here
+// an anonymous block of the root box) and walks it with all the clauses; calls met inside a
+// footnote (nested footnotes) give a further area.
+func (m *monitor) walkFootnotes() {
+	for len(m.pending) > 0 && m.areaDepth < 64 {
+		m.areaDepth++
+		batch := map[bo.Box]bool{}
+		for _, fb := range m.pending {
+			batch[fb] = true
+		}
+		m.pending = nil
+		var kids []bo.Box
+		for _, fb := range m.b.foot { // document order of the footnotes list
+			if batch[fb] {
+				kids = append(kids, bo.Deepcopy(fb))
+				batch[fb] = false
+			}
+		}
+		area := bo.CreateAnonymousBox(bo.BlockBoxAnonymousFrom(m.b.root, kids))
+		m.areas = append(m.areas, area)
+		m.res.Count("footnote_areas", 1)
+		m.res.Count("footnotes_walked", int64(len(kids)))
+		m.inArea = true
+		m.walk(area, nil)
+		m.inArea = false
+		if m.res.Verdict == fw.Violation {
+			return
+		}
+	}
+	// list entries no call leads to: never laid out.  webrender leaves them for footnote elements
+	// whose call was removed with its parent's content (children of replaced elements, §17.2.1
+	// rules 1.1/1.2); counted.  One for a display:none element is a box of a display:none subtree.
+	for i, fb := range m.b.foot {
+		if m.reached[fb] {
+			continue
+		}
+		fe := m.info(fb.Box().Element)
+		switch {
+		case fe == nil:
+			m.fail("provenance-unknown-element", "entry %d of the footnotes list, %s, belongs to no rendered element", i, desc(fb))
+			return
+		case fe.shown:
+			m.fail("footnote-without-call", "entry %d of the footnotes list, %s, is the footnote of the rendered element n%d but no ::footnote-call box of the tree links it", i, desc(fb), fe.n.ID)
+			return
+		case strings.Contains(fe.why, "replaced") || strings.Contains(fe.why, "17.2.1"):
+			m.res.Count("footnotes_listed_without_call", 1)
+		default:
+			m.fail("provenance-none", "entry %d of the footnotes list, %s, is generated for element n%d, which must generate no box: %s", i, desc(fb), fe.n.ID, fe.why)
+			return
+		}
+	}
 }
